@@ -75,7 +75,7 @@ def prop(pid, rules, cfgs_quick, explanation, technique, not_decided, cfgs_thoro
 
 prop("C02",
      [("S1", S.S1, K01, {}), ("S2", S.S2, K01, {}), ("S3", S.S3, K01, {}), ("S4", S.S4, K01, {}), ("S5", S.S5, K01, {}),
-      ("L2", lambda ctx: __import__("rules_run").L2(ctx), K01, {}),
+      ("L2", lambda ctx: __import__("rules_run").L2(ctx), K01, {}), ("L6", R.L6, K01, {}),
       ("B1", S.opts_frame, K01, {"fields": ("StreamOrder",)}), ("B2", S.order_wiring, K01, {}),
       ("R3", B.R3, ("K0",), {"parts": ("structures", "counts")}), ("E", B.C16_rules, ("K0",), {}), ("ID", B.ID_rules, ("K0",), {}), ("Q6", R.clone_frame, ("K0",), {})],
      K01,
@@ -92,7 +92,7 @@ prop("C02",
 prop("C03",
      [("S1", S.S1, K01, {}), ("S2", S.S2, K01, {}), ("S3", S.S3, K01, {}), ("S5", S.S5, K01, {}),
       ("S6", S.S6, K01, {"roles_filter": ("READY", "DONE")}),
-      ("R3", B.R3, ("K0",), {"parts": ("structures", "counts")}), ("R4", B.R4, ("K0",), {}), ("O6", R.O6, K01, {}), ("T5", T.T5, K01, {}), ("Q6", R.clone_frame, ("K0",), {}), ("T6", T.T6, K01, {})],
+      ("R3", B.R3, ("K0",), {"parts": ("structures", "counts")}), ("R4", B.R4, ("K0",), {}), ("O6", R.O6, K01, {}), ("T5", T.T5, K01, {}), ("Q6", R.clone_frame, ("K0",), {}), ("T6", T.T6, K01, {}), ("L6", R.L6, K01, {})],
      K01,
      "Decides S2 (each ready-send is the preload of all zero-count nodes or the release at count==0 after the decrement), "
      "S3 (counts only decrease by one per predecessor edge), S6 (channel capacities are monotone in node_count so try_send never drops an id) "
@@ -135,7 +135,7 @@ prop("C01",
      [("R1", B.R1, ("K0", "K3"), {}), ("R2", B.R2, ("K0",), {"strict_order": False}),
       ("R3", B.R3, ("K0",), {"parts": ("structures", "counts", "graph-field")}), ("R4", B.R4, ("K0",), {}),
       ("R5", B.R5, ("K0", "K3"), {}), ("R6", B.D2_coverage, ("K0",), {}), ("R7", B.R7, ("K0", "K3"), {}),
-      ("S1", S.S1, K01, {}), ("S2", S.S2, K01, {}), ("S3", S.S3, K01, {}), ("S4", S.S4, K01, {}), ("S5", S.S5, K01, {})],
+      ("S1", S.S1, K01, {}), ("S2", S.S2, K01, {}), ("S3", S.S3, K01, {}), ("S4", S.S4, K01, {}), ("S5", S.S5, K01, {}), ("L6", R.L6, K01, {})],
      ("K0", "K1", "K3"),
      "Decides R1 (the conflict predicate compares A.read x B.write, A.write x B.read, A.write x B.write for the two endpoints of the "
      "inserted edge and the insertion is taken iff one of them holds - truth table over the path conditions), R2 (every guard between the "
@@ -176,7 +176,8 @@ prop("C11",
 prop("C12",
      [("D1", B.D1, K04, {}), ("D2", B.D2, K04, {}), ("D3", B.D3, K04, {}), ("D4", B.D4, K04, {}),
       ("K", B.C13_rules, K04, {}), ("E", B.C16_rules, K04, {}), ("R2", B.R2, K04, {"strict_order": True}), ("B3", B.B3, K04, {}),
-      ("D4e", lambda ctx: R.edge_eq_rule(ctx, "D4"), K04, {}), ("D1r", lambda ctx: B.rank_ord_rule(ctx, "D1"), K04, {}), ("ID", B.ID_rules, K04, {}), ("R1", B.R1, K04, {}), ("R7", B.R7, K04, {})],
+      ("D4e", lambda ctx: R.edge_eq_rule(ctx, "D4"), K04, {}), ("D1r", lambda ctx: B.rank_ord_rule(ctx, "D1"), K04, {}), ("ID", B.ID_rules, K04, {}), ("R1", B.R1, K04, {}), ("R7", B.R7, K04, {}),
+      ("R3", B.R3, K04, {"parts": ("structures",)})],
      K04,
      "Decides D1 (ids listed in ascending id order and sorted by a stable sort whose comparator is ranks[first] vs ranks[second], ascending), "
      "D2 (the Data edge goes from the outer element to an element at a later position of the same sorted list), D3 (no hash-ordered container, "
